@@ -51,7 +51,6 @@ const prop = "C04"
 const (
 	kStackOverflow = "typedef-cycle-enum-selector-stack-overflow" // S3
 	kUnionDefault  = "union-second-default-accepted"              // S4
-	kRecovered     = "recovered-panic-exits-0"                    // S5
 	kSecondBackend = "invalid-second-backend-partial-output"
 )
 
@@ -89,7 +88,7 @@ type c04Case struct {
 }
 
 const (
-	stDiagnosed = "diagnosed"
+	stDiagnosed     = "diagnosed"
 	stRejected      = "rejected_valid"
 	stRejectedTrace = "rejected_valid_with_go_trace"
 	watchdog        = 60 * time.Second
@@ -170,6 +169,9 @@ func judge(c c04Case) (string, error) {
 	if r.Exit != 0 {
 		// a valid program that is rejected is not C04's business (C01 owns it), even
 		// when the rejection message carries a Go trace; it is counted separately
+		if os.Getenv("VERIF_SURVEY") != "" {
+			fmt.Fprintf(os.Stderr, "REJECTED %s\n", vt.Truncate(strings.ReplaceAll(lastNonWarn(r.Output), "\n", " | "), 400))
+		}
 		if crashMark(r.Output) != "" {
 			return stRejectedTrace, nil
 		}
@@ -214,14 +216,12 @@ type env struct {
 	reach []*idl.File // files reachable from main in the valid program (main first)
 	n     int         // fresh-name counter
 
-	valid     map[string]string // rendered before the edit
-	mapTd     map[*idl.File]bool
-	snapped   bool
-	post      []func(files map[string]string) // text-level part of the edit
-	info      editInfo
-	needGen   bool // the rule is enforced by the backend: the edited file must be generated
-	excluded  map[string]bool
-	dropKinds map[string]bool
+	valid    map[string]string // rendered before the edit
+	snapped  bool
+	post     []func(files map[string]string) // text-level part of the edit
+	info     editInfo
+	needGen  bool // the rule is enforced by the backend: the edited file must be generated
+	excluded map[string]bool
 }
 
 func (e *env) fresh(prefix string) string {
@@ -247,23 +247,14 @@ func reachable(p *idl.Program) []*idl.File {
 	return out
 }
 
-// snap renders the valid program; everything that needs Type.Final() is
-// computed here because an edit may make a typedef chain cyclic.
+// snap renders the valid program.  Nothing may call Type.Final() after the
+// edit: a typedef chain may have become cyclic.
 func (e *env) snap() {
 	if e.snapped {
 		panic("snap twice")
 	}
 	e.snapped = true
 	e.valid = e.p.Texts(nil)
-	e.mapTd = map[*idl.File]bool{}
-	for _, f := range e.reach {
-		for _, s := range typeSlots([]*idl.File{f}) {
-			t := *s.pp
-			if s.pos != "typedef" && s.pos != "const" && t.Ref != nil && t.Ref.Kind == idl.KTypedef && t.FinalCat() == "map" {
-				e.mapTd[f] = true
-			}
-		}
-	}
 }
 
 func (e *env) where(f *idl.File) string {
@@ -482,8 +473,11 @@ var edits = map[string]editFn{
 
 // weights: kinds with several positions/sub-shapes are drawn more often
 var kindBag = func() []string {
-	w := map[string]int{"include_cycle": 4, "dup_global_name": 3, "dup_field_id": 2, "undefined_type": 3, "typedef_cycle": 2, "undefined_const": 2,
-		"string_for_integer": 2, "ambiguous_const": 2, "syntax": 2}
+	w := map[string]int{"include_cycle": 4, "dup_global_name": 3, "dup_field_id": 2, "undefined_type": 3, "typedef_cycle": 3,
+		"string_for_integer": 3, "syntax": 2, "undefined_const": 3, "missing_include": 2, "enum_outside_int32": 2,
+		// kinds that need a service (rare in the model) are drawn more often to make up for the cases where they do not apply
+		"oneway_throws": 4, "oneway_returns": 3, "unknown_base_service": 3, "service_as_type": 2, "dup_function_name": 2, "union_second_default": 2,
+		"non_string_key_in_struct": 3, "unknown_field_in_struct": 2}
 	var ks []string
 	for k := range edits {
 		ks = append(ks, k)
@@ -632,7 +626,8 @@ func editIncludeCycle(e *env) bool {
 			}
 		}
 	}
-	e.info.CycleLen = girth
+	e.info.CycleLen = len(cyc)
+	e.info.Variant = fmt.Sprintf("shortest_cycle_%d", girth)
 	e.info.Detail = strings.Join(names, " -> ")
 	e.post = append(e.post, func(m map[string]string) {
 		for _, ed := range edges {
@@ -887,6 +882,33 @@ func editTypedefCycle(e *env) bool {
 			keep = append(keep, d)
 		}
 		cands = keep
+	}
+	// typedefs that a constant of the same file uses as an enum selector (`const T c = T.Member`) are
+	// preferred: there thriftgo walks the chain (getEnum) before it rejects typedef cycles.  When the
+	// program has none, one is added first (still valid: a typedef of an enum and a constant naming a
+	// member through it).
+	var sel []*idl.Def
+	for _, d := range cands {
+		if viaChainHits(e, d) {
+			sel = append(sel, d)
+		}
+	}
+	enums := defsOf(e.reach, func(d *idl.Def) bool { return d.Kind == idl.KEnum && len(d.Values) > 0 })
+	if !vt.Known(prop, kStackOverflow) {
+		switch {
+		case len(sel) > 0 && e.coin("enum_selector"):
+			cands = sel
+		case len(sel) == 0 && len(enums) > 0 && e.intn(0, 2, "add_enum_selector") == 0:
+			en := pick(e, "enum", enums)
+			td := &idl.Def{Kind: idl.KTypedef, Name: e.fresh("Tsel"), Type: &idl.Type{Ref: en}}
+			e.insertDef(en.File, td)
+			m := pick(e, "member", en.Values)
+			e.insertDef(en.File, &idl.Def{Kind: idl.KConst, Name: e.fresh("Csel"), Type: &idl.Type{Ref: td},
+				Value: &idl.Value{Kind: idl.VIdent, Ident: td.Name + "." + m.Name, RefEnum: en, RefVal: m.Name, Via: td}})
+			cands = []*idl.Def{td}
+		}
+	} else if len(enums) > 0 {
+		e.excluded[kStackOverflow] = true
 	}
 	if len(cands) == 0 {
 		return false
@@ -1254,23 +1276,11 @@ func texts(m map[string]string) string {
 	return b.String()
 }
 
-// drawBackend picks go / fastgo; with the recovered-panic finding listed, the
-// one shape known to make fastgo panic (a field, argument or return type that
-// names a typedef of a map, in a generated file) is moved to the go backend.
-func drawBackend(e *env, recurse bool) string {
-	backend := "go"
+func drawBackend(e *env) string {
 	if e.intn(0, 2, "fastgo") == 0 {
-		backend = "fastgo"
+		return "fastgo"
 	}
-	if backend == "fastgo" && vt.Known(prop, kRecovered) {
-		for i, f := range e.reach {
-			if (i == 0 || recurse) && e.mapTd[f] {
-				e.excluded[kRecovered] = true
-				return "go"
-			}
-		}
-	}
-	return backend
+	return "go"
 }
 
 func genIDLCase(rt *rapid.T) (c04Case, *env) {
@@ -1302,7 +1312,7 @@ func genIDLCase(rt *rapid.T) (c04Case, *env) {
 	if e.needGen && e.info.Where != "main" {
 		recurse = true // the rule is enforced while the file is generated
 	}
-	backend := drawBackend(e, recurse)
+	backend := drawBackend(e)
 	main := p.Files[0].Path
 	c := c04Case{Main: main, Valid: e.valid, Files: files, Edit: e.info,
 		ValidArgs: cmdline(backend, recurse, main), Args: cmdline(backend, recurse, main),
@@ -1382,7 +1392,7 @@ func genCmdCase(rt *rapid.T) (c04Case, *env) {
 	e := &env{t: rt, p: p, reach: reachable(p), excluded: map[string]bool{}}
 	e.snap()
 	recurse := e.coin("recurse")
-	backend := drawBackend(e, recurse)
+	backend := drawBackend(e)
 	main := p.Files[0].Path
 	good := cmdline(backend, recurse, main)
 	tail := []string{"-o", "{out}"}
@@ -1472,6 +1482,16 @@ func TestInvalidCommandLine(t *testing.T) {
 			vt.Fail(rt, prop, "cmdline", c, "%v", err)
 		}
 	})
+}
+
+func lastNonWarn(out string) string {
+	var ls []string
+	for _, l := range strings.Split(out, "\n") {
+		if !strings.HasPrefix(l, "[WARN]") {
+			ls = append(ls, l)
+		}
+	}
+	return strings.Join(ls, "\n")
 }
 
 // survey (development aid, VERIF_SURVEY=1): list failures instead of stopping at the first.
